@@ -713,6 +713,68 @@ func c18LongLists(res *Result) {
 	}
 }
 
+// c18Counter: a record with a pointer-receiver method that writes to its receiver (memoisation, a counter)
+type c18Counter struct {
+	Name string
+	N    int
+}
+
+func (c *c18Counter) Bump() int { c.N++; return c.N }
+func (c c18Counter) Label() string { return "L" + c.Name }
+
+// c18Aliases: names of the caller's context that a template also uses for something of its own -- an import alias, a
+// loop variable, a set, a macro name, a block name -- and records whose pointer-receiver methods write to the receiver.
+// Whatever the template does with the name, the caller's value under it is as it was afterwards.
+func c18Aliases(res *Result) {
+	mk := func() map[string]interface{} {
+		return map[string]interface{}{
+			"ui":   map[string]interface{}{"theme": "dark", "btn": "B"},
+			"lib":  map[string]string{"k": "v"},
+			"it":   []interface{}{"keep"},
+			"recs": []c18Counter{{"a", 0}, {"b", 0}},
+			"prec": []*c18Counter{{"p", 0}},
+			"rec":  c18Counter{"solo", 0},
+			"m":    map[string]interface{}{"inner": map[string]interface{}{"x": 1}, "list": []interface{}{1, 2}},
+		}
+	}
+	tpls := []string{
+		"{% import 'macros' as ui %}{{ ui.m(1) }}",
+		"{% import 'macros' as lib %}{{ lib.m(2) }}{% from 'macros' import m as it %}{{ it(3) }}",
+		"{% for r in recs %}{{ r.Bump }}{{ r.Label }}{% endfor %}{% for r in recs %}{{ r.N }}{% endfor %}",
+		"{% for r in recs %}{{ r.Bump }}{% endfor %}{{ recs|first.N }}{{ rec.Bump }}{{ rec.N }}",
+		"{% set ui = ui|merge({'x': 1}) %}{{ ui|keys|join }}{% set it = it|merge(['z']) %}{{ it|join }}",
+		"{% for ui in it %}{{ ui }}{% endfor %}{% for k, lib in m %}{{ k }}{% endfor %}{{ ui.theme }}",
+		"{% macro ui(a) %}{{ a }}{% endmacro %}{{ ui(1) }}{% set m = m.inner|merge({'y': 2}) %}{{ m|keys|join }}",
+		"{% include 'inc' with {'ui': 1, 'it': 2} %}{% include 'inc' with {'theme': ui.theme, 'x': m.list} only %}{% include 'inc' %}",
+	}
+	for _, src := range tpls {
+		ctx := mk()
+		before := c18DeepCopy(reflect.ValueOf(ctx), 0).Interface()
+		c := Case{"stream": "aliases", "tpl": src}
+		res.Hist["stream:aliases"]++
+		res.Evaluations++
+		eng := twig.New()
+		eng.RegisterString("macros", "{% macro m(a) %}<{{ a }}>{% endmacro %}")
+		eng.RegisterString("inc", "[{{ theme }}{{ x }}{% set ui = 5 %}{% set theme = 'z' %}]")
+		if err := eng.RegisterString("t", src); err != nil {
+			res.Notes = append(res.Notes, "aliases: template does not parse: "+src+": "+err.Error())
+			continue
+		}
+		func() {
+			defer func() {
+				if r := recover(); r != nil {
+					res.add(Finding{Kind: "oracle", Where: "aliases", Case: c, Detail: fmt.Sprintf("panic: %v", r)})
+				}
+			}()
+			eng.Render("t", ctx)
+			if !reflect.DeepEqual(ctx, before) {
+				res.add(Finding{Kind: "oracle", Where: "aliases", Case: c, Expected: "the context as it was handed over",
+					Observed: c18FirstDiff(before, ctx), Detail: "a render changed the caller's data: " + src})
+			}
+		}()
+	}
+}
+
 func c18FirstDiff(a, b interface{}) string {
 	ma, ok1 := a.(map[string]interface{})
 	mb, ok2 := b.(map[string]interface{})
@@ -729,6 +791,7 @@ func c18FirstDiff(a, b interface{}) string {
 
 func runC18(cases string, res *Result) {
 	c18LongLists(res)
+	c18Aliases(res)
 	var smoke []c18Seq
 	private := map[string]bool{"sort": true, "reverse": true, "merge": true, "keys": true, "split": true}
 	filters := (&twig.CoreExtension{}).GetFilters()
